@@ -130,6 +130,14 @@ theorem write_layout_now (n item : Nat) :
     PqV.Gen.WriteLayout.v1Trailer = 8 :=
   Impl.write_layout_now n item
 
+/-- … and the two level-block layouts of `make_definitions` (REGENERATED likewise): one RLE run `varint(n << 1)` + value byte 1
+    for a page without nulls, one bit-packed run `varint(len(out) << 1 | 1)` otherwise, a 4-byte little-endian length prefix
+    exactly in v1 pages.  `Impl.writerDefBody` / `writerDefBlock` are built from these functions. -/
+theorem def_layout_now (n : Nat) :
+    (PqV.Gen.WriteLayout.defRleHeader n).toNat = n * 2 ∧ PqV.Gen.WriteLayout.defRleValue.toNat = 1 ∧
+    (PqV.Gen.WriteLayout.defBpHeader n).toNat = n * 2 + 1 ∧ PqV.Gen.WriteLayout.defPrefixBytes = 4 :=
+  Impl.def_layout_now n
+
 /-- **the chunk metadata describes the pages present**: the `encodings` list and the `encoding_stats` the writer model
     records (compared with what the real writer records by the `wpage.chunk` correspondence) pass the validator's
     check `encodingsProblem` for every column spec and any number of pages — every page's encoding is listed, every
